@@ -207,7 +207,8 @@ def r4_for_each(text, log, **kw):
                 repl = "for %s in 0..%s.len() { let %s = &%s[%s];%s}" % (iv, recv, xv, recv, iv, inner)
                 return _edit(t, s, r, end, repl)
             # X.iter().for_each(|x| ..)
-            if s.seq(p - 4, ".", "iter", "(", ")") and not re.search(r"&\s*mut\s+%s\b" % re.escape(pat), inner):
+            if s.seq(p - 4, ".", "iter", "(", ")") and not re.search(r"&\s*mut\s+%s\b" % re.escape(pat), inner) \
+                    and not re.search(r"\*\s*%s\s*=[^=]" % re.escape(pat), inner):
                 d = p - 4
                 r = receiver_start(s, d)
                 recv = s.slice(r, d - 1)
@@ -261,13 +262,23 @@ def r10_atomic(text, log, **kw):
             c = s.closer(p + 2)
             if s.seq(p + 3, "Ordering", "::") and c == p + 6:
                 r = receiver_start(s, p)
-                return _edit(t, s, r, c, s.slice(r, p - 1))
+                # a bare identifier is a reference to the atomic (closure parameter / pattern binding): read through it
+                return _edit(t, s, r, c, ("*" if r == p - 1 and s.kind(r) == "ident" and s.txt(r) != "self" else "") + s.slice(r, p - 1))
         for p in _find_method(s, "store"):
             c = s.closer(p + 2)
             if s.seq(c - 3, "Ordering", "::") and s.is_(c - 4, ","):
                 r = receiver_start(s, p)
                 val = s.slice(p + 3, c - 5)
-                return _edit(t, s, r, c, "%s = %s" % (s.slice(r, p - 1), val))
+                return _edit(t, s, r, c, "%s%s = %s" % ("*" if r == p - 1 and s.kind(r) == "ident" and s.txt(r) != "self" else "", s.slice(r, p - 1), val))
+        for p in _find_method(s, "fetch_add"):
+            # `x.fetch_add(d, Ordering::_);` as a statement of its own (result unused): x = x.wrapping_add(d)
+            c = s.closer(p + 2)
+            if s.seq(c - 3, "Ordering", "::") and s.is_(c - 4, ","):
+                r = receiver_start(s, p)
+                if not s.is_(c + 1, ";") or (r > 0 and s.txt(r - 1) not in (";", "{", "}")):
+                    raise Undecided("R10: fetch_add whose result is used")
+                recv = s.slice(r, p - 1)
+                return _edit(t, s, r, c, "%s = %s.wrapping_add(%s)" % (recv, recv, s.slice(p + 3, c - 5)))
         return None
     return _fix(text, step, log, "R10")
 
@@ -361,7 +372,10 @@ def r12_valueref(text, log, **kw):
             inner = [s.txt(k) for k in range(p + 2, c)]
             if ("ValueRef" in inner or "ValueRefMut" in inner) and "item" in inner and "Some" in inner:
                 log.hit("R12")
-                return text[:s.start(p)] + "Some(item)" + text[s.end(c):]
+                # the packaged value is handed out as a snapshot (`vx_snapshot`, a trusted `r == *x`), not as a reference into
+                # the shard: a reference would tie the shard's borrow to the return value on every path and make rustc reject
+                # bodies the real code (raw pointer + guard) is allowed to have
+                return text[:s.start(p)] + "Some(vx_snapshot(item))" + text[s.end(c):]
     return text
 
 
